@@ -1,5 +1,6 @@
 (* Properties_C09.v — C09: the unconstrained fit minimises the penalised weighted least-squares objective.
-   Statements only; proofs in C09_LinAlg.v (1), C09_Penalty.v (2), C09_Index.v + C09_Glam.v + C09_Kron.v (3), C09_Invariance.v (4).
+   Statements only; proofs in C09_LinAlg.v (1), C09_Penalty.v (2), C09_Index.v + C09_Glam.v + C09_Kron.v (3), C09_Invariance.v (4),
+   C09_Top.v (5).
    The model is FitModel.fit_system (normal matrix and right-hand side exactly as glamfit_complex hands them to
    cholesky_solve); on every run it is compared with the real code and, in exact rationals, with a direct evaluation of
    the statement's objective (tools/props/C09.py).
@@ -12,7 +13,7 @@
    the entry's abscissae, z_e) followed by, per dimension d, the triples (lambda_d, p, 0) for the rows p of
    I x .. x D_d x .. x I  (D_d = rows of divided_diffs coefficients = finitediff). *)
 From Coq Require Import ZArith NArith List Bool Lia QArith Qcanon Permutation.
-From PS Require Import Arith EvalModel BSpline OFieldKit FitModel C09_LinAlg C09_Penalty C09_Index C09_Glam C09_Kron C09_Invariance.
+From PS Require Import Arith EvalModel BSpline OFieldKit FitModel C09_LinAlg C09_Penalty C09_Index C09_Glam C09_Kron C09_Top C09_Invariance.
 Import ListNotations.
 Local Open Scope nat_scope.
 
@@ -158,6 +159,48 @@ Proof.
   - intros Hwf Hw. split; [apply (wrss_zero_weight F); exact Hw | split; [apply (nmat_zero_weight F); assumption | apply (nrhs_zero_weight F); assumption]].
 Qed.
 
+(* (5) the composition of (1), (2), (3): what the model hands to the solver is the normal system of ONE triple list, the
+   property's penalised objective: the data triples (w_e, Kronecker product of the basis rows at the entry's abscissae, z_e)
+   followed by, per dimension d with non-zero smoothing lambda_d, the triples (lambda_d, p, 0) for the rows p of
+   I x .. x D_d x .. x I (penalty_root; D_d = finitediff = rows of divided_diffs coefficients) *)
+Theorem C09_fit_system_is_normal_system : forall (dims : list dimspec) (smoothing : list K) (porders : list nat) (data : list (list N * K * K)),
+  Forall (fun e => valid_idx (map (fun d => N.of_nat (length (ds_coords d))) dims) (fst (fst e))) data ->
+  let n := fold_right Nat.mul 1 (map ds_nsplines dims) in
+  let E := data_triples dims data ++ pen_triples dims smoothing porders in
+  fit_system dims smoothing porders data = (nmat n E, nrhs n E) /\ wf_rows n E.
+Proof. exact (fit_system_is_normal_system F). Qed.
+(* the vocabulary of (5), spelled out: the data triples, and the penalty part of the objective *)
+Theorem C09_objective_vocabulary : forall (dims : list dimspec) (smoothing : list K) (porders : list nat) (data : list (list N * K * K)) (c : list K),
+  data_triples dims data
+  = map (fun e => (snd e, design_row (map (fun d => bsplinebasis (ds_knots d) (ds_coords d) (ds_order d)) dims) (fst (fst e)), snd (fst e))) data
+  /\ wrss (pen_triples dims smoothing porders) c
+     = sumK (map (fun id : nat * dimspec =>
+                    let lam := pick zero smoothing (fst id) in
+                    if eqK lam zero then zero
+                    else mul lam (sumK (map (fun p => sq (dot p c))
+                           (penalty_root (map ds_nsplines dims) (fun k => nth k (ds_knots (snd id)) zero) (fst id) (ds_order (snd id))
+                                         (pick 0 porders (fst id))))))
+                 (combine (seq 0 (length dims)) dims)).
+Proof. intros dims smoothing porders data c. split; [reflexivity | apply (penalty_objective F)]. Qed.
+
+(* with the solver oracle: the coefficients obtained from the model's system minimise
+   J(c) = sum_e w_e (z_e - b_e . c)^2 + sum_d lambda_d sum_{rows p} (p . c)^2, uniquely *)
+Section Solver2.
+Variable solve : list (list K) -> list K -> list K.
+Hypothesis solve_spec : forall n M r, spd n M -> length (solve M r) = n /\ matvec M (solve M r) = r.
+Theorem C09_fit_minimises_penalised_objective : forall (dims : list dimspec) (smoothing : list K) (porders : list nat) (data : list (list N * K * K)),
+  Forall (fun e => valid_idx (map (fun d => N.of_nat (length (ds_coords d))) dims) (fst (fst e))) data ->
+  Forall (fun e => le zero (snd e)) data ->
+  Forall (fun l => le zero l) smoothing ->
+  let n := fold_right Nat.mul 1 (map ds_nsplines dims) in
+  let sys := fit_system dims smoothing porders data in
+  let J := fun c => add (wrss (data_triples dims data) c) (wrss (pen_triples dims smoothing porders) c) in
+  spd n (fst sys) ->
+  let c := solve (fst sys) (snd sys) in
+  length c = n /\ forall c', length c' = n -> le (J c) (J c') /\ (J c' = J c -> c' = c).
+Proof. exact (fit_minimises_penalised_objective F solve solve_spec). Qed.
+End Solver2.
+
 End C09.
 
 (* non-vacuity on exact rationals: two data points, one coefficient:  J(c) = (2 - c)^2 + 3 (1 - 2c)^2,
@@ -215,6 +258,21 @@ Proof.
   apply (f_equal snd) in H. cbn [snd] in H. etransitivity; [symmetry; exact H | vm_compute; reflexivity].
 Qed.
 
+(* (5) hypotheses satisfiable: 1 dimension, order 0, one coefficient, one datum of weight 13, smoothing 0: the system matrix
+   is [[13]] = nmat 1 exE, positive definite by the example above *)
+Definition exdims1 : list (@dimspec QcA) := [ mkDim 0 [exq 0 1; exq 1 1] [exq 1 2] ].
+Definition exdata1 : list (list N * T QcA * T QcA) := [ ([0]%N, exq 2 1, exq 13 1) ].
+Example C09_top_hypotheses_satisfiable :
+  Forall (fun e => valid_idx (map (fun d => N.of_nat (length (ds_coords d))) exdims1) (fst (fst e))) exdata1
+  /\ Forall (fun e => OFieldKit.le (A := QcA) zero (snd e)) exdata1
+  /\ Forall (fun l => OFieldKit.le (A := QcA) zero l) [exq 0 1]
+  /\ spd (A := QcA) (fold_right Nat.mul 1 (map ds_nsplines exdims1)) (fst (fit_system exdims1 [exq 0 1] [0] exdata1)).
+Proof.
+  split; [vm_compute; repeat constructor|]. split; [repeat constructor|]. split; [repeat constructor|].
+  replace (fst (fit_system exdims1 [exq 0 1] [0] exdata1)) with (nmat (A := QcA) 1 exE) by (vm_compute; reflexivity).
+  exact (proj2 (proj2 (proj2 C09_hypotheses_satisfiable))).
+Qed.
+
 Print Assumptions C09_normal_eq_minimise.
 Print Assumptions C09_fit_minimises.
 Print Assumptions C09_penalty_is_DtD.
@@ -227,3 +285,6 @@ Print Assumptions C09_box_identity.
 Print Assumptions C09_reshape_flatten_bijection.
 Print Assumptions C09_glam_is_kron.
 Print Assumptions C09_zero_weight_and_order_irrelevant.
+Print Assumptions C09_fit_system_is_normal_system.
+Print Assumptions C09_objective_vocabulary.
+Print Assumptions C09_fit_minimises_penalised_objective.
